@@ -1,11 +1,20 @@
 /-
 C04 — model of the deterministic and categorical scores of `hydrodiy.stat.metrics`:
-`bias`, `nse`, `kge`, `corr` (Pearson, mean/median statistic), `__nonulldata`,
-`confusion_matrix` (padding / re-ordering around `pd.crosstab`) and `binary`.
+* closed forms: `bias` (three types), `nse`, `kge`, `corr` (Pearson / Spearman on mid-ranks), the ensemble statistic
+  (`nanmean` / `nanmedian`), `__nonulldata`, `__check_ensemble_data`;
+* whole functions from the raw arguments: `biasFull`, `nseFull`, `kgeFull` (length check, transform `f`, null filter, guards, type
+  check, in the order of the code), `corrRaw` (orientation of the ensemble, one row per observation, forecasts without
+  observation / member dropped, `stat` / `type` checks, transform, statistic, null filter, guard, coefficient), with the
+  errors the functions raise as values of `Res`;
+* `confusion_matrix` (padding / re-ordering around `pd.crosstab`), `binary` with its error paths (`binaryOf`), the route
+  two 0/1 series → table → scores (`binarySeries`);
+* histories of tables held by the caller (`hstep` / `hrun`);
+* `Rnd α r`: the same formulas with a rounding operator after every operation (float32 in the driver, any monotone odd
+  rounding in the `_rnd` theorems).
 
-Generic over the numeric type: `Float` (driver), `Rat` (exact, where no root/log is needed)
-and any ordered field / ℝ (theorems). `none` stands for NaN results (the code returns `np.nan`
-with a warning) and for missing data (`pd.notnull` false).  No Mathlib.
+Generic over the numeric type: `Float` (driver), `Rat` (exact, where no root/log is needed), any ordered field / ℝ (theorems)
+and `Rnd`.  `none` stands for NaN results (the code returns `np.nan` with a warning) and for missing data (`pd.notnull`
+false).  The transform is a parameter `f : α → Option α` (the driver passes the transform model of C01/C02).  No Mathlib.
 -/
 import HydroVerif.Num
 namespace HydroVerif.C04
@@ -164,34 +173,6 @@ def allSomeL : List (Option α) → Option (List α)
 
 end ens
 
-section corrfull
-variable {α : Type} [Add α] [Sub α] [Mul α] [Div α] [Neg α] [LT α] [DecidableLT α]
-  [OfNat α 0] [OfNat α 1] [NatCast α] [Transc α]
-
-inductive CorrResult (α : Type) | value (v : α) | nan | noValidData
-  deriving Repr
-
-/-- `corr(obs, ens, trans, excludenull, stat, type)` from the transformed data on (`tobs`, `tens` with `none` = NaN;
-`fin` = `np.isfinite`): statistic per forecast, optional null filter, standard-deviation guard, coefficient.
-Without `excludenull` a NaN anywhere makes the result NaN. -/
-def corrFull (fin : α → Bool) (eps : α) (spearman : Bool) (st : Stat) (excl : Bool)
-    (tobs : List (Option α)) (tens : List (List (Option α))) : CorrResult α :=
-  let tsim := tens.map (ensStat st)
-  let fo (x : Option α) : Option α := x.bind fun v => if fin v then some v else none
-  let pair : Option (List α × List α) :=
-    if excl then some (nonull (tobs.map fo) (tsim.map fo))
-    else match allSomeL tobs, allSomeL tsim with
-      | some o, some s => some (o, s)
-      | _, _ => none
-  match pair with
-  | none => .nan
-  | some (o, s) =>
-    if excl && o.isEmpty then .noValidData else
-    match (if spearman then corrSpearman eps o s else corrPearson eps o s) with
-    | some v => .value v
-    | none => .nan
-
-end corrfull
 
 /-! ### confusion matrix -/
 
@@ -264,5 +245,275 @@ def binary (tn fp fn tp : α) : Binary α :=
     orss := if -1 < theta then some ((theta - 1) / (theta + 1)) else none }
 
 end binary
+
+/-! ### whole functions: argument checks, transform, null filter, guards, closed form, error kinds
+
+`obs`, `sim` are the RAW series (`none` = NaN, infinite values stay values of the carrier and are recognised by `fin`),
+`f` is `trans.forward` on one value (`none` = NaN result).  `Res` carries the errors the functions raise. -/
+
+inductive Res (α : Type)
+  | value (v : α)
+  | nan            -- `np.nan` returned (with a warning)
+  | errShape       -- ValueError: obs and sim do not have the same length / ens does not have one row per observation
+  | errNoValid     -- ValueError: "No valid data" (`__check_ensemble_data`) / "No valid data in transformed space" (`__nonulldata`)
+  | errType        -- ValueError: unknown `type`
+  | errStat        -- ValueError: unknown `stat`
+  deriving Repr, DecidableEq
+
+section pipeline
+variable {α : Type} [Add α] [Sub α] [Mul α] [Div α] [Neg α] [LT α] [DecidableLT α]
+  [OfNat α 0] [OfNat α 1] [NatCast α] [Transc α]
+
+/-- `trans.forward` on a series: NaN stays NaN -/
+def fwdL (f : α → Option α) (l : List (Option α)) : List (Option α) := l.map fun x => x.bind f
+
+/-- `np.isfinite` as a filter on one entry -/
+def finOpt (fin : α → Bool) (x : Option α) : Option α := x.bind fun v => if fin v then some v else none
+
+/-- what the closed forms are applied to -/
+inductive Prep (α : Type)
+  | pairs (o s : List α)      -- two series without NaN
+  | noValid                   -- `excludenull` and no complete pair: `__nonulldata` raises
+  | nanObs                    -- no `excludenull`, a NaN among the transformed observations
+  | nanSim (o : List α)       -- no `excludenull`, observations without NaN, a NaN among the transformed simulations
+  deriving Repr
+
+/-- `if excludenull: tobs, tsim = __nonulldata(tobs, tsim)` -/
+def prep (fin : α → Bool) (excl : Bool) (tobs tsim : List (Option α)) : Prep α :=
+  if excl then
+    let r := nonull (tobs.map (finOpt fin)) (tsim.map (finOpt fin))
+    if r.1.isEmpty then .noValid else .pairs r.1 r.2
+  else match allSomeL tobs, allSomeL tsim with
+    | some o, some s => .pairs o s
+    | some o, none => .nanSim o
+    | none, _ => .nanObs
+
+def Res.ofOpt : Option α → Res α
+  | some v => .value v
+  | none => .nan
+
+/-- `bias(obs, sim, trans, excludenull, type)`; `ty = none` stands for a `type` string that is not one of the three.
+A NaN mean passes the guard (`abs(nan) < EPS` is false), so an unknown type is reported even then. -/
+def biasFull (fin : α → Bool) (eps : α) (f : α → Option α) (ty : Option BiasType) (excl : Bool)
+    (obs sim : List (Option α)) : Res α :=
+  if obs.length ≠ sim.length then .errShape else
+  match prep fin excl (fwdL f obs) (fwdL f sim) with
+  | .noValid => .errNoValid
+  | .nanObs => match ty with
+    | none => .errType
+    | some _ => .nan
+  | .nanSim o =>
+    if absG (mean o) < eps then .nan else
+    match ty with
+    | none => .errType
+    | some _ => .nan
+  | .pairs o s =>
+    if absG (mean o) < eps then .nan else
+    match ty with
+    | none => .errType
+    | some .standard => Res.ofOpt (biasStd eps o s)
+    | some .normalised => Res.ofOpt (biasNorm eps o s)
+    | some .log => Res.ofOpt (biasLog eps o s)
+
+/-- `nse(obs, sim, trans, excludenull)`: no guard at all, the quotient is formed whatever the observations -/
+def nseFull (fin : α → Bool) (f : α → Option α) (excl : Bool) (obs sim : List (Option α)) : Res α :=
+  if obs.length ≠ sim.length then .errShape else
+  match prep fin excl (fwdL f obs) (fwdL f sim) with
+  | .noValid => .errNoValid
+  | .nanObs => .nan
+  | .nanSim _ => .nan
+  | .pairs o s => .value (nse o s)
+
+/-- `kge(obs, sim, trans, excludenull)` -/
+def kgeFull (fin : α → Bool) (eps : α) (f : α → Option α) (excl : Bool) (obs sim : List (Option α)) : Res α :=
+  if obs.length ≠ sim.length then .errShape else
+  match prep fin excl (fwdL f obs) (fwdL f sim) with
+  | .noValid => .errNoValid
+  | .nanObs => .nan
+  | .nanSim _ => .nan
+  | .pairs o s => Res.ofOpt (kge eps o s)
+
+inductive CorrResult (α : Type) | value (v : α) | nan | noValidData
+  deriving Repr
+
+/-- the last part of `corr`, from the transformed observations and the per-forecast statistic (`none` = NaN): optional null
+filter, standard-deviation guard, coefficient.  Without `excludenull` a NaN anywhere makes the result NaN. -/
+def corrSeries (fin : α → Bool) (eps : α) (spearman : Bool) (excl : Bool) (tobs tsim : List (Option α)) : CorrResult α :=
+  match prep fin excl tobs tsim with
+  | .noValid => .noValidData
+  | .nanObs => .nan
+  | .nanSim _ => .nan
+  | .pairs o s =>
+    match (if spearman then corrSpearman eps o s else corrPearson eps o s) with
+    | some v => .value v
+    | none => .nan
+
+/-- a computed value that is NaN (`nanv`, `np.isnan`; e.g. the mean of `+inf` and `-inf`) is a NaN entry like any other -/
+def nanOpt (nanv : α → Bool) (x : Option α) : Option α := x.bind fun v => if nanv v then none else some v
+
+/-- `corr(obs, ens, trans, excludenull, stat, type)` from the transformed data on (`tobs`, `tens` with `none` = NaN;
+`fin` = `np.isfinite`, `nanv` = `np.isnan`): statistic per forecast, then `corrSeries` -/
+def corrFull (fin nanv : α → Bool) (eps : α) (spearman : Bool) (st : Stat) (excl : Bool)
+    (tobs : List (Option α)) (tens : List (List (Option α))) : CorrResult α :=
+  corrSeries fin eps spearman excl tobs (tens.map fun row => nanOpt nanv (ensStat st row))
+
+inductive CorrType | pearson | spearman | censored
+  deriving DecidableEq, Repr
+
+/-- `ens = np.atleast_2d(ens); if ens.shape[0] == 1: ens = ens.T`: a single row (a 1d series) becomes a column
+of one-member forecasts; anything else is left as it is, square ensembles included -/
+def orient (ens : List (List (Option α))) : List (List (Option α)) :=
+  match ens with
+  | [row] => row.map fun x => [x]
+  | _ => ens
+
+/-- `corr(obs, ens, trans, excludenull, stat, type)` from the raw arguments: orientation, `__check_ensemble_data`
+(one row per observation, forecasts without observation or without member dropped, at least one left), the
+`stat` / `type` checks in the order of the code, transform, then `corrFull`.  `type="censored"` is accepted by the
+check and takes the `else` branch of the last test, i.e. it is computed like Spearman. -/
+def corrRaw (fin nanv : α → Bool) (eps : α) (f : α → Option α) (ct : Option CorrType) (st : Option Stat) (excl : Bool)
+    (obs : List (Option α)) (ens : List (List (Option α))) : Res α :=
+  let ens := orient ens
+  if ens.length ≠ obs.length then .errShape else
+  let kept := checkEns obs ens
+  if kept.isEmpty then .errNoValid else
+  match st with
+  | none => .errStat
+  | some st =>
+  match ct with
+  | none => .errType
+  | some ct =>
+    match corrFull fin nanv eps (ct != .pearson) st excl (fwdL f (kept.map fun p => p.1)) (kept.map fun p => fwdL f p.2) with
+    | .value v => .value v
+    | .nan => .nan
+    | .noValidData => .errNoValid
+
+end pipeline
+
+/-! ### binary scores: the function with its error paths, and the route series → table → scores -/
+
+inductive BinRes (α : Type)
+  | ok (b : Binary α)
+  | errShape        -- not a 2x2 table
+  | errZeroDiv      -- ZeroDivisionError
+
+section binaryFull
+variable {α : Type} [Add α] [Sub α] [Mul α] [Div α] [Neg α] [LT α] [DecidableLT α]
+  [OfNat α 0] [OfNat α 1] [OfNat α 2]
+
+/-- `x == 0` for a number that is not NaN -/
+def isZero (x : α) : Bool := !decide (x < 0) && !decide (0 < x)
+
+/-- `binary(conf_mat)`: Python raises `ZeroDivisionError` for a zero divisor, int or float, in the order
+`TP/Pobs`, `FP/Nobs`, `…/(1-H)`, `…/F`, `…/sqrt(…)` -/
+def binaryOf (t : List (List α)) : BinRes α :=
+  match t with
+  | [[tn, fp], [fn, tp]] =>
+    let b := binary tn fp fn tp
+    if isZero (tp + fn) then .errZeroDiv else
+    if isZero (tn + fp) then .errZeroDiv else
+    if isZero (1 - b.hitrate) then .errZeroDiv else
+    if isZero b.falsealarm then .errZeroDiv else
+    if isZero b.mccDen2 then .errZeroDiv else
+    .ok b
+  | _ => .errShape
+
+end binaryFull
+
+section binarySeries
+variable {α : Type} [Add α] [Sub α] [Mul α] [Div α] [Neg α] [LT α] [DecidableLT α]
+  [OfNat α 0] [OfNat α 1] [OfNat α 2] [NatCast α]
+
+/-- `binary(confusion_matrix(obs, sim, 2))` for two series of 0/1 categories -/
+def binarySeries (obs sim : List Int) : BinRes α :=
+  binaryOf ((confusion obs sim 2).2.2.map fun r => r.map fun (c : Nat) => (c : α))
+
+end binarySeries
+
+/-! ### histories: tables held by the caller while other tables are computed or edited
+
+The functions have no state: a returned table is a value.  `hrun` is the reference for the history stream of the
+harness (operations: score another pair of series; the caller overwrites a cell / all cells of a table it holds). -/
+
+abbrev Table := List Int × List Int × List (List Nat)
+
+inductive HOp
+  | score (obs sim : List Int) (ncat : Option Nat)
+  | setCell (k i j v : Nat)
+  | fill (k v : Nat)
+  deriving Repr
+
+def modifyAt {β : Type} (l : List β) (k : Nat) (g : β → β) : List β :=
+  match l, k with
+  | [], _ => []
+  | x :: xs, 0 => g x :: xs
+  | x :: xs, k + 1 => x :: modifyAt xs k g
+
+def hstep (held : List Table) : HOp → List Table
+  | .score obs sim ncat => held ++ [confusion obs sim (match ncat with | some n => n | none => inferNcat obs sim)]
+  | .setCell k i j v => modifyAt held k fun t => (t.1, t.2.1, modifyAt t.2.2 i fun r => modifyAt r j fun _ => v)
+  | .fill k v => modifyAt held k fun t => (t.1, t.2.1, t.2.2.map fun r => r.map fun _ => v)
+
+def hrun (ops : List HOp) : List Table := ops.foldl hstep []
+
+/-- the held table an operation writes to (`none`: a new table is computed, nothing held is written to) -/
+def HOp.target : HOp → Option Nat
+  | .score _ _ _ => none
+  | .setCell k _ _ _ => some k
+  | .fill k _ => some k
+
+/-- indices of the held tables that no operation of the history writes to -/
+def untouched (ops : List HOp) : List Nat :=
+  (List.range (hrun ops).length).filter fun k => ops.all fun op => op.target != some k
+
+/-! ### "the series with incomplete pairs removed" (what `excludenull` is compared with) -/
+
+section removed
+variable {α : Type}
+
+/-- both transformed values exist and are finite -/
+def completeB (fin : α → Bool) (f : α → Option α) (a b : Option α) : Bool :=
+  (finOpt fin (a.bind f)).isSome && (finOpt fin (b.bind f)).isSome
+
+/-- the raw series without the pairs that are incomplete after the transform -/
+def removedRaw (fin : α → Bool) (f : α → Option α) (obs sim : List (Option α)) : List (Option α) × List (Option α) :=
+  ((obs.zip sim).filter fun p => completeB fin f p.1 p.2).unzip
+
+end removed
+
+/-! ### the same formulas with a rounding after every operation
+
+`Rnd α r` carries values of `α`; every `+ - * /`, every cast of a natural number and every transcendental function is followed
+by the rounding operator `r`; comparisons, negation and the literals 0, 1, 2 are exact.  With `α = Float` and
+`r` = rounding to single precision this is float32 arithmetic (run by the driver); with `α` an ordered field and `r`
+any monotone, odd operator fixing 0 and 1 it is the carrier of the `_rnd` theorems, which therefore hold for IEEE
+arithmetic in every precision as long as nothing overflows. -/
+
+structure Rnd (α : Type) (r : α → α) where
+  val : α
+
+namespace Rnd
+variable {α : Type} {r : α → α}
+instance [Add α] : Add (Rnd α r) := ⟨fun a b => ⟨r (a.val + b.val)⟩⟩
+instance [Sub α] : Sub (Rnd α r) := ⟨fun a b => ⟨r (a.val - b.val)⟩⟩
+instance [Mul α] : Mul (Rnd α r) := ⟨fun a b => ⟨r (a.val * b.val)⟩⟩
+instance [Div α] : Div (Rnd α r) := ⟨fun a b => ⟨r (a.val / b.val)⟩⟩
+instance [Neg α] : Neg (Rnd α r) := ⟨fun a => ⟨-a.val⟩⟩
+instance [LT α] : LT (Rnd α r) := ⟨fun a b => a.val < b.val⟩
+instance [LT α] [DecidableLT α] : DecidableLT (Rnd α r) := fun a b => inferInstanceAs (Decidable (a.val < b.val))
+instance [OfNat α 0] : OfNat (Rnd α r) 0 := ⟨⟨0⟩⟩
+instance [OfNat α 1] : OfNat (Rnd α r) 1 := ⟨⟨1⟩⟩
+instance [OfNat α 2] : OfNat (Rnd α r) 2 := ⟨⟨2⟩⟩
+instance [NatCast α] : NatCast (Rnd α r) := ⟨fun n => ⟨r (n : α)⟩⟩
+instance [Transc α] : Transc (Rnd α r) where
+  exp a := ⟨r (Transc.exp a.val)⟩
+  log a := ⟨r (Transc.log a.val)⟩
+  sqrt a := ⟨r (Transc.sqrt a.val)⟩
+  sinh a := ⟨r (Transc.sinh a.val)⟩
+  cosh a := ⟨r (Transc.cosh a.val)⟩
+  tanh a := ⟨r (Transc.tanh a.val)⟩
+  asinh a := ⟨r (Transc.asinh a.val)⟩
+  pow a b := ⟨r (Transc.pow a.val b.val)⟩
+end Rnd
 
 end HydroVerif.C04
